@@ -25,7 +25,7 @@ type fpShape struct {
 	dep       bool // build depends on another fingerprinted task
 	include   bool // the task lives in an included Taskfile (namespaced)
 	label     bool
-	dirAttr   bool // task has dir: newdir (does not exist at first)
+	dirAttr   bool   // task has dir: newdir (does not exist at first)
 	global    string // top-level method: differing from the task's own
 	broken    bool   // the Taskfile also has a task that cannot be compiled (for over a non-list var)
 }
